@@ -38,6 +38,16 @@ def showReply (r : Reply) : String :=
     | .text cps => "text:" ++ hexRunes cps
   s!"{r.code} {e} {m}"
 
+def showStored (r : Reply) : String :=
+  let e := match r.ench with
+    | some en => s!"{en.cls}.{en.subj}.{en.det}"
+    | none => "none"
+  let m := match r.msg with
+    | .generic => "generic"
+    | .highLoad => "highload"
+    | .text cps => "text:" ++ hexRunes cps
+  s!"{r.code} {e} {m}"
+
 def handle : List String → String
   | "wrap" :: mang :: rest =>
     match parseErr rest with
@@ -45,7 +55,7 @@ def handle : List String → String
     | _ => "bad-op"
   | "tosmtp" :: rest =>
     match parseErr rest with
-    | some (e, []) => showReply (toSMTPErr e) ++ " retry=" ++ (if queueRetries e then "1" else "0")
+    | some (e, []) => showStored (toSMTPErr e) ++ " retry=" ++ (if queueRetries e then "1" else "0")
     | _ => "bad-op"
   | "helper" :: t :: p :: s :: d :: rest =>
     match parseErr rest, t.toNat?, p.toNat?, s.toNat?, d.toNat? with
